@@ -105,6 +105,9 @@ theorem swapCur_lastLoc (X Y : List RawItem) (b' : Bool) (c : Cur) : (swapCur X 
 theorem swapCur_refLoc (X Y : List RawItem) (b' : Bool) (c : Cur) : (swapCur X Y b' c).refLoc = c.refLoc := by
   cases c <;> rfl
 
+theorem swapCur_atAlias (X Y : List RawItem) (b' : Bool) (c : Cur) : (swapCur X Y b' c).atAlias = c.atAlias := by
+  cases c <;> rfl
+
 /-- the parameters of the lock-step comparison for a failing document -/
 def failP (L : AliasLimits) (ob : Option Limits) (X Y : List RawItem) (b' : Bool) : LP where
   σ := swapCur X Y b'
@@ -112,6 +115,7 @@ def failP (L : AliasLimits) (ob : Option Limits) (X Y : List RawItem) (b' : Bool
   ErrI := FailErr L ob X
   σ_lastLoc := swapCur_lastLoc X Y b'
   σ_refLoc := swapCur_refLoc X Y b'
+  σ_atAlias := swapCur_atAlias X Y b'
   σ_replay := fun _ _ _ => rfl
   inv_err := by
     rintro c ⟨q, inq, l, rfl, hst, hJ, -, -⟩
